@@ -359,6 +359,10 @@ pub fn timed_conformance<A>(ctx: &mut Ctx, site: &str, model_name: &str, cfg: &C
 
 #[allow(clippy::too_many_arguments)]
 pub fn timed_conformance_from<A>(ctx: &mut Ctx, site: &str, model_name: &str, cfg: &Cfg, init: &[Snap], prefix: Option<&[Vec<u8>]>, actions: &[Action], st: &Step<A>, extra: serde_json::Value) {
+    if !crate::run::file_source_streams() {
+        ctx.count("timed-run-conformance:not applicable (the file source is not read incrementally)");
+        return;
+    }
     let d_ms = cfg.args.delete_after.saturating_mul(1000);
     if max_silence_before_own_frame(init, actions, st.path) >= d_ms {
         ctx.count("timed-run-conformance:skipped (a row may be swept and re-created)");
